@@ -113,8 +113,14 @@ pub fn explore(ctx: &Ctx) {
     if quick {
         let few: Vec<Site> = vec![Site::new(45.0, 0.0, 0.0, 0.0), Site::new(-45.0, 135.0, 0.0, 11.0)];
         ctx.alphabet("part3", json!({"sites": few, "dates": all.len()}));
-        par_jobs(ctx, &few, |site, l| {
-            for &d in &all {
+        let mut jobs3 = vec![];
+        for s in &few {
+            for c in all.chunks(20000) {
+                jobs3.push((*s, c.to_vec()));
+            }
+        }
+        par_jobs(ctx, &jobs3, |(site, ds), l| {
+            for &d in ds {
                 let r = prayer_times_dt(&p1, site.loc(), d, None);
                 l.evals += 1;
                 for s in SHIFTS {
